@@ -1,9 +1,19 @@
 /-
   C14 — the gray axis at ℝ: a linear gray `g·(1,1,1)` maps to `g·M(1,1,1)` under any 3×3 matrix, so neutrals stay on the axis of RGB white,
   which `C14.rgb_white_is_white_point` places within 1e-6 of the standard's white point.
+
+  §1 exact statements for L\*a\*b\*, L\*u\*v\*, Lch, Lchuv on the exact gray axis `g·w` (both directions); §2 the hexcone spaces (Hsv, Hsl, Hwb; both
+  directions).  The perturbation form for the real 7-digit matrices is in `C14_GrayNear.lean`, Ottosson's spaces in `C14_GrayOk.lean` and
+  `C14_GrayOkRgb.lean`.  "CAM16 lightness 100 when white is the adopted white of the viewing conditions" is a statement about
+  `Cam16.xyzToCam16` and the baked viewing-condition parameters (`A = A_w` for the adopted white, so `J = 100·(A/A_w)^{cz} = 100`) and
+  belongs to C16 (`PaletteProofs/C16_Cam16.lean`, DESIGN §3 C14 last bullet / C16); no theorem about it is stated here.
 -/
 import PaletteProofs.Real
 import PaletteModel.Color.Basic
+import PaletteProofs.C01_Cie
+import PaletteProofs.C01_Rgb
+import PaletteProofs.C14_White
+import PaletteProofs.Lemmas.KRatCast
 
 namespace C14Gray
 
@@ -16,5 +26,178 @@ theorem gray_axis (m : M3 ℝ) (g : ℝ) :
 theorem gray_is_scaled_white (m : M3 ℝ) (w : V3 ℝ) (h : m.mulVec ⟨1, 1, 1⟩ = w) (g : ℝ) :
     m.mulVec ⟨g, g, g⟩ = ⟨g * w.c0, g * w.c1, g * w.c2⟩ := by
   rw [gray_axis, h]
+
+/-! ## 1. CIE L\*a\*b\* / L\*u\*v\* on the exact gray axis `g·w`
+
+Exact statements about the model's own `xyzToLab`, `labToXyz`, `xyzToLuv`, `luvToXyz`, `labToLch`, `luvToLchuv` read at ℝ, under the
+exact hypothesis "the colour is `g·w`, `w` the reference white".  Every white point with non-zero components (in particular positive
+ones), every real `g` (in particular `g ≥ 0`). -/
+open Cie
+
+/-- `g·w` -/
+abbrev smul (g : ℝ) (w : V3 ℝ) : V3 ℝ := ⟨g * w.c0, g * w.c1, g * w.c2⟩
+
+/-- CIE lightness as `xyzToLab` forms it: `L*(g) = 116·f(g) − 16` with the model's `labF` -/
+noncomputable def labL (g : ℝ) : ℝ := labF g * 116 - 16
+
+theorem labL_hi {g : ℝ} (h : (6 / 29 : ℝ) ^ 3 < g) : labL g = 116 * g ^ ((1 : ℝ) / 3) - 16 := by
+  unfold labL; rw [C02Cie.labF_hi h]; ring
+theorem labL_lo {g : ℝ} (h : ¬ (6 / 29 : ℝ) ^ 3 < g) : labL g = (29 / 3 : ℝ) ^ 3 * g := by
+  unfold labL; rw [C02Cie.labF_lo h]; ring
+
+/-- **Lab of a gray**: `g·w ↦ (L*(g), 0, 0)` exactly -/
+theorem lab_gray (w : V3 ℝ) (h0 : w.c0 ≠ 0) (h1 : w.c1 ≠ 0) (h2 : w.c2 ≠ 0) (g : ℝ) :
+    xyzToLab w (smul g w) = ⟨labL g, 0, 0⟩ := C02Cie.xyzToLab_neutral w g h0 h1 h2
+
+/-- **white has `L* = 100`** (and black `L* = 0`) -/
+theorem labL_one : labL 1 = 100 := by unfold labL; rw [C02Cie.labF_one]; norm_num
+theorem labL_zero : labL 0 = 0 := by rw [labL_lo (by norm_num)]; ring
+theorem lab_white (w : V3 ℝ) (h0 : w.c0 ≠ 0) (h1 : w.c1 ≠ 0) (h2 : w.c2 ≠ 0) : xyzToLab w w = ⟨100, 0, 0⟩ :=
+  C02Cie.xyzToLab_white w h0 h1 h2
+
+/-- non-vacuity: D65 and the DCI white have positive (hence non-zero) components -/
+example : (0.95047 : ℝ) ≠ 0 ∧ (1 : ℝ) ≠ 0 ∧ (1.08883 : ℝ) ≠ 0 ∧ (0.314 / 0.351 : ℝ) ≠ 0 := by norm_num
+
+theorem hypot_zero : Angle.hypot (0 : ℝ) 0 = 0 := by simp
+
+/-- **Lch chroma of a gray is 0** exactly (the hue is whatever `atan2(−0, −0)` gives; the property does not speak about it) -/
+theorem lch_gray (w : V3 ℝ) (h0 : w.c0 ≠ 0) (h1 : w.c1 ≠ 0) (h2 : w.c2 ≠ 0) (g : ℝ) :
+    (labToLch (xyzToLab w (smul g w))).c0 = labL g ∧ (labToLch (xyzToLab w (smul g w))).c1 = 0 := by
+  rw [lab_gray w h0 h1 h2]; exact ⟨rfl, hypot_zero⟩
+
+/-- CIE lightness as `xyzToLuv` forms it is `C02Cie.luvL`; it agrees with `labL` -/
+theorem luvL_eq_labL (g : ℝ) : C02Cie.luvL g = labL g := by
+  by_cases h : (6 / 29 : ℝ) ^ 3 < g
+  · rw [C01Cie.luvL_hi h, labL_hi h]
+  · rw [C01Cie.luvL_lo h, labL_lo h]
+
+/-- **Luv of a gray**: `g·w ↦ (L*(g), 0, 0)` exactly, for every `g` (at `g = 0` through the model's early return for a zero denominator) -/
+theorem luv_gray (w : V3 ℝ) (h1 : w.c1 ≠ 0) (hd : w.c0 + 15 * w.c1 + 3 * w.c2 ≠ 0) (g : ℝ) :
+    xyzToLuv w (smul g w) = ⟨labL g, 0, 0⟩ := by
+  by_cases hg : g = 0
+  · subst hg
+    rw [C02Cie.xyzToLuv_of_zero w _ (by simp), labL_zero]
+  · obtain ⟨hu, hv⟩ := C02Cie.xyzToLuv_neutral w g hg hd
+    have hd' : (smul g w).c0 + 15 * (smul g w).c1 + 3 * (smul g w).c2 ≠ 0 := by
+      have : g * w.c0 + 15 * (g * w.c1) + 3 * (g * w.c2) = g * (w.c0 + 15 * w.c1 + 3 * w.c2) := by ring
+      show g * w.c0 + 15 * (g * w.c1) + 3 * (g * w.c2) ≠ 0
+      rw [this]; exact mul_ne_zero hg hd
+    have hl : (xyzToLuv w (smul g w)).c0 = labL g := by
+      rw [C02Cie.xyzToLuv_of_ne w _ hd', ← luvL_eq_labL]
+      show C02Cie.luvL (g * w.c1 / w.c1) = _
+      rw [mul_div_assoc, div_self h1, mul_one]
+    cases hx : xyzToLuv w (smul g w) with
+    | mk a b c => rw [hx] at hu hv hl; simp only at hu hv hl; rw [hu, hv, hl]
+
+/-- **Lchuv chroma of a gray is 0** -/
+theorem lchuv_gray (w : V3 ℝ) (h1 : w.c1 ≠ 0) (hd : w.c0 + 15 * w.c1 + 3 * w.c2 ≠ 0) (g : ℝ) :
+    (luvToLchuv (xyzToLuv w (smul g w))).c0 = labL g ∧ (luvToLchuv (xyzToLuv w (smul g w))).c1 = 0 := by
+  rw [luv_gray w h1 hd]; exact ⟨rfl, hypot_zero⟩
+
+example : (1 : ℝ) ≠ 0 ∧ (0.95047 : ℝ) + 15 * 1 + 3 * 1.08883 ≠ 0 := by norm_num
+
+/-! ### … and back -/
+
+/-- the luminance factor `labToXyz` assigns to `L*`: `f⁻¹((L + 16)/116)` with the model's `labFInv` -/
+noncomputable def labY (L : ℝ) : ℝ := labFInv ((L + 16) / 116)
+
+/-- **Lab `(L, 0, 0)` ↦ `Y(L)·w`** exactly: every white point, every `L` (no hypothesis at all) -/
+theorem lab_neutral_back (w : V3 ℝ) (L : ℝ) : labToXyz w ⟨L, 0, 0⟩ = smul (labY L) w := by
+  unfold labToXyz labY
+  simp only [C02Cie.recip_eq]
+  have e1 : (L + 16.0) * (1 / 116.0 : ℝ) = (L + 16) / 116 := by sring
+  simp only [zero_mul, add_zero, sub_zero, e1]
+
+/-- `labY` inverts `labL`: a gray of level `g` comes back as exactly `g·w` -/
+theorem labY_labL (g : ℝ) : labY (labL g) = g := by
+  unfold labY labL
+  have : (labF g * 116 - 16 + 16) / 116 = labF g := by ring
+  rw [this, C01Cie.labFInv_labF]
+
+theorem lab_gray_roundtrip (w : V3 ℝ) (h0 : w.c0 ≠ 0) (h1 : w.c1 ≠ 0) (h2 : w.c2 ≠ 0) (g : ℝ) :
+    labToXyz w (xyzToLab w (smul g w)) = smul g w := by
+  rw [lab_gray w h0 h1 h2, lab_neutral_back, labY_labL]
+
+/-- **Luv `(L, 0, 0)` ↦ `Y(L)·w`** exactly above the model's guard `L ≥ 1e-5` (`C02Cie.luvY` is the luminance expression of `luvToXyz`) … -/
+theorem luv_neutral_back (w : V3 ℝ) (h1 : w.c1 ≠ 0) (hd : w.c0 + 15 * w.c1 + 3 * w.c2 ≠ 0) (L : ℝ) (hL : 1e-5 ≤ L) :
+    luvToXyz w ⟨L, 0, 0⟩ = smul (C02Cie.luvY L) w := by
+  rw [C02Cie.luvToXyz_of_ge w _ (not_lt.mpr hL)]
+  simp only [zero_div, zero_add]
+  obtain ⟨D, hD⟩ : ∃ D, D = w.c0 + 15 * w.c1 + 3 * w.c2 := ⟨_, rfl⟩
+  rw [← hD] at hd ⊢
+  have hv : 9 * w.c1 * (1 / D) ≠ 0 := mul_ne_zero (mul_ne_zero (by norm_num) h1) (one_div_ne_zero hd)
+  congr 1
+  · rw [div_eq_iff hv]; norm_num; field_simp
+  · rw [div_eq_iff hv]; norm_num; field_simp; rw [hD]; ring
+
+/-- … and black below it (the guard: `(0, 0, 0)`, which is `0·w`) -/
+theorem luv_neutral_back_guard (w : V3 ℝ) (L : ℝ) (hL : L < 1e-5) : luvToXyz w ⟨L, 0, 0⟩ = ⟨0, 0, 0⟩ :=
+  C02Cie.luvToXyz_of_lt w _ hL
+
+example : (1e-5 : ℝ) ≤ 50 := by norm_num
+
+/-! ## 2. Hexcone spaces: a gray has saturation exactly 0, and saturation 0 is a gray
+
+Every real `g` (negative components are clamped by the code's `max(0)` first), including 0 and 1; every hue `h`. -/
+open RgbFam Hexcone
+
+theorem maxMinSep_gray (m : ℝ) : maxMinSep m m m = ⟨m, m, m - m, 2.0⟩ := by
+  simp [maxMinSep]
+
+/-- **`Rgb → Hsv` of a gray**: hue 0, saturation 0, value `max(g, 0)` — exactly -/
+theorem rgbToHsv_gray (g : ℝ) : rgbToHsv ⟨g, g, g⟩ = ⟨0.0, 0.0, max0 g⟩ := by
+  unfold rgbToHsv
+  simp only [maxMinSep_gray, eqv_iff, not_true_eq_false, if_false]
+
+/-- **`Rgb → Hsl` of a gray**: hue 0, saturation 0, lightness `max(g, 0)` — exactly -/
+theorem rgbToHsl_gray (g : ℝ) : rgbToHsl ⟨g, g, g⟩ = ⟨0.0, 0.0, (max0 g + max0 g) / 2.0⟩ := by
+  unfold rgbToHsl
+  simp only [maxMinSep_gray, eqv_iff, not_true_eq_false, if_false]
+
+theorem rgbToHsv_gray_saturation (g : ℝ) : (rgbToHsv ⟨g, g, g⟩).c1 = 0 ∧ (rgbToHsl ⟨g, g, g⟩).c1 = 0 := by
+  rw [rgbToHsv_gray, rgbToHsl_gray]; norm_num
+
+theorem rgbToHsl_gray_lightness {g : ℝ} (hg : 0 ≤ g) : (rgbToHsv ⟨g, g, g⟩).c2 = g ∧ (rgbToHsl ⟨g, g, g⟩).c2 = g := by
+  rw [rgbToHsv_gray, rgbToHsl_gray, max0_of_nonneg hg]; norm_num
+
+/-- the mask-generic (SIMD lane) branches agree: saturation 0 on a gray -/
+theorem rgbToHsvMask_gray_saturation (g : ℝ) : (rgbToHsvMask ⟨g, g, g⟩).c1 = 0 ∧ (rgbToHslMask ⟨g, g, g⟩).c1 = 0 := by
+  have e : Scalar.eqv (max0 g - max0 g) (0.0 : ℝ) := by rw [eqv_iff]; norm_num
+  have e' : Scalar.eqv (max0 g) (max0 g) := by rw [eqv_iff]
+  constructor
+  · simp only [rgbToHsvMask, RealScalar.max_eq, RealScalar.min_eq, max_self, min_self, if_pos e]; norm_num
+  · simp only [rgbToHslMask, RealScalar.max_eq, RealScalar.min_eq, max_self, min_self, if_pos e']; norm_num
+
+/-- **Hwb of a gray**: whiteness + blackness = 1 exactly (`Rgb → Hsv → Hwb`, the route of the crate) -/
+theorem rgbToHwb_gray (g : ℝ) :
+    (hsvToHwb (rgbToHsv ⟨g, g, g⟩)).c1 + (hsvToHwb (rgbToHsv ⟨g, g, g⟩)).c2 = 1 := by
+  rw [rgbToHsv_gray]; simp only [hsvToHwb]; norm_num
+
+theorem zones_zero (h m : ℝ) : zones h 0 0 m = ⟨m, m, m⟩ := by
+  unfold zones
+  have z : (0.0 : ℝ) = 0 := by norm_num
+  simp only [z, ite_self, zero_add]
+
+theorem hexX_zero (h : ℝ) : hexX h (0 : ℝ) = 0 := by unfold hexX; simp
+
+/-- **`Hsv (h, 0, v) ↦ (v, v, v)`** for every hue and every value — exactly -/
+theorem hsvToRgb_neutral (h v : ℝ) : hsvToRgb ⟨h, 0, v⟩ = ⟨v, v, v⟩ := by
+  rw [C01Rgb.hsvToRgb_unfold]
+  simp only [mul_zero, hexX_zero, sub_zero, zones_zero]
+
+/-- **`Hsl (h, 0, l) ↦ (l, l, l)`** for every hue and every lightness — exactly -/
+theorem hslToRgb_neutral (h l : ℝ) : hslToRgb ⟨h, 0, l⟩ = ⟨l, l, l⟩ := by
+  rw [C01Rgb.hslToRgb_unfold]
+  simp only [mul_zero, zero_mul, hexX_zero, sub_zero, zones_zero]
+
+/-- `Hwb` with `w + b = 1` is the gray `w` (through `Hsv`, the crate's route), whatever the hue; `b ≠ 1` (black is `hwbToHsv`'s guard) -/
+theorem hwbToRgb_neutral (h w b : ℝ) (hwb : w + b = 1) (hb : b ≠ 1) : hsvToRgb (hwbToHsv ⟨h, w, b⟩) = ⟨w, w, w⟩ := by
+  rw [C01Rgb.hwbToHsv_of_ne _ _ _ hb]
+  have hv : (1.0 : ℝ) - b = w := by norm_num; linarith
+  have hw : w ≠ 0 := by intro h0; apply hb; linarith
+  have hs : (1.0 : ℝ) - w / (1.0 - b) = 0 := by rw [hv, div_self hw]; norm_num
+  rw [hs, hv, hsvToRgb_neutral]
+
+example : (0.25 : ℝ) + 0.75 = 1 ∧ (0.75 : ℝ) ≠ 1 := by norm_num
 
 end C14Gray
